@@ -456,7 +456,7 @@ closedir(DIR *d)
 }
 
 /* ================= job spawning ================= */
-#define HX_MAXSPAWN	64
+#define HX_MAXSPAWN	192
 struct hx_spawn_s {
 	double at;		/* virtual time of the spawn */
 	int pid;
@@ -538,7 +538,7 @@ hx_collect_vtodo(struct hx_spawn_s *s)
 }
 
 /* ================= children ================= */
-#define HX_MAXCHLD	32
+#define HX_MAXCHLD	128
 static ev_child *hx_chld[HX_MAXCHLD];
 static int hx_nchld;
 
